@@ -5,7 +5,10 @@ import binlib
 
 import c07text
 import c07text_tr
-THEOREMS = ["C07bin_state_untouched", "C07bin_next_false", "C07bin_err_stays", "C07bin_permanent", "C07bin_sticky_next", "C07bin_sticky_err", "C07bin_false_is_recorded", "tr_sticky_reach", "tr_sticky", "tr_sticky_run"]
+THEOREMS = ["C07bin_state_untouched", "C07bin_next_false", "C07bin_err_stays", "C07bin_permanent", "C07bin_sticky_next", "C07bin_sticky_err", "C07bin_false_is_recorded", "tr_sticky_reach", "tr_sticky", "tr_sticky_run",
+            "C07rej_system_partial", "C07rej_system_partial_default", "C07rej_all_partial", "C07rej_judge", "C07rej_stream_partial",
+            "C07rej_lst_skipped_refuted", "C07rej_unrestricted_refuted", "C07rej_no_bvm_refuted", "C07rej_lim_g7_refuted"]
+EXTRA_MODULES = ["C07rej"]
 LEVEL = "other"
 TRUSTED_EXTRA = getattr(c07text_tr, "TRUSTED_EXTRA", [])
 EXPLANATION = ("valid binary documents x an enumerated catalogue of spec-invalidating edits (truncation at every byte "
